@@ -11,9 +11,10 @@ structure DProgram where
   fb : Out
   groups : List (Kind × List Pat)
 
-/-- Meaning of key group `g` for a name (documented kinds, invalid patterns skipped). -/
+/-- Meaning of key group `g` for a name (documented kinds; patterns in any letter case mean their
+lower-case form — `AddSet` lower-cases full / suffix / keyword patterns —; invalid patterns skipped). -/
 def groupHolds (name : Str) (rxHits : List Nat) (g : Kind × List Pat) : Bool :=
-  g.2.any fun p => patMatches g.1 p (normName name) rxHits && patValid g.1 p
+  (lowerPats g.1 g.2).any fun p => patMatches g.1 p (normName name) rxHits && patValid g.1 p
 
 /-- The packet as the specification sees it: C01's oracle bits instantiated by the documented meaning. -/
 def withName (P : DProgram) (pk : Pkt) (name : Str) (rxHits : List Nat) : Pkt :=
@@ -37,6 +38,19 @@ def matchWithBuilt (b : Built) (P : DProgram) (pk : Pkt) (name : Str) (rxHits : 
       | c => evalM pk c
     (scanIdx ev 0 (compileProgram P.rules P.fb) false false false).map
       fun (o, must) => { o with must := o.must || must }
+
+/-- `RoutingMatcher.Match` as it treats the name: with an EMPTY domain the domain matcher is not asked
+at all (`if domain != ""` in the code) and every domain bit is clear; otherwise the bitmap of the real
+matcher is used. -/
+def matchGuarded (b : Built) (P : DProgram) (pk : Pkt) (name : Str) (rxHits : List Nat) : Option Out :=
+  if name.isEmpty then
+    let ev : Nat → MCond → Bool := fun _ c =>
+      match c with
+      | .domainSet _ => false
+      | c => evalM pk c
+    (scanIdx ev 0 (compileProgram P.rules P.fb) false false false).map
+      fun (o, must) => { o with must := o.must || must }
+  else matchWithBuilt b P pk name rxHits
 
 def matchReal (n : Nat) (P : DProgram) (pk : Pkt) (name : Str) (rxHits : List Nat) : Option Out :=
   match (Matcher.replay n (addCalls P)).build with
